@@ -546,7 +546,9 @@ class Enumerator:
         elif self.prog is not None and self.cls is not None and isinstance(it, (ast.Attribute, ast.Name)):
             from .model import NOCONST
             v = self.prog.const_eval(it, self.cls.mod, self.cls)
-            if v is not NOCONST and isinstance(v, (list, tuple)) and all(isinstance(x, (int, str, float, bool, type(None))) for x in v):
+            if v is not NOCONST and isinstance(v, (list, tuple)) and all(
+                    isinstance(x, (int, str, float, bool, type(None))) or
+                    (isinstance(x, tuple) and all(isinstance(y, (int, str, float, bool, type(None))) for y in x)) for x in v):
                 vals = list(v)
         # zip(<display of constants>, <display of constants>, ...): a display of tuples
         if vals is None and isinstance(it, ast.Call) and isinstance(it.func, ast.Name) and it.func.id == "zip" and not it.keywords and len(it.args) >= 2 \
@@ -568,6 +570,40 @@ class Enumerator:
             pure = not any(isinstance(x, (ast.Attribute, ast.Subscript, ast.Call)) for x in ast.walk(it))
             if not (reads & written) and pure:
                 return ("exprs", list(it.elts)), False
+        if vals is None and isinstance(it, ast.Name) and getattr(self, "fnode", None) is not None and not enum and not st.orelse \
+                and self.prog is not None and self.cls is not None:
+            # a local bound once to a constant table expression (e.g. `head, rest = TABLE[0], TABLE[1:]`)
+            from .model import NOCONST
+            srcs = []
+            for a in ast.walk(self.fnode):
+                if isinstance(a, ast.Assign):
+                    for t in a.targets:
+                        if isinstance(t, ast.Name) and t.id == it.id:
+                            srcs.append(a.value)
+                        elif isinstance(t, (ast.Tuple, ast.List)) and isinstance(a.value, (ast.Tuple, ast.List)) and len(t.elts) == len(a.value.elts):
+                            for te, ve in zip(t.elts, a.value.elts):
+                                if isinstance(te, ast.Name) and te.id == it.id:
+                                    srcs.append(ve)
+                        elif isinstance(t, (ast.Tuple, ast.List)) and sum(1 for e in t.elts if isinstance(e, ast.Starred)) == 1:
+                            # head, *rest = TABLE
+                            k = [i for i, e in enumerate(t.elts) if isinstance(e, ast.Starred)][0]
+                            if isinstance(t.elts[k].value, ast.Name) and t.elts[k].value.id == it.id:
+                                after = len(t.elts) - k - 1
+                                sl = ast.Subscript(value=a.value, slice=ast.Slice(lower=ast.Constant(value=k), upper=(ast.Constant(value=-after) if after else None), step=None), ctx=ast.Load())
+                                ast.copy_location(sl, a.value)
+                                ast.fix_missing_locations(sl)
+                                srcs.append(sl)
+                            elif any(isinstance(x, ast.Name) and x.id == it.id for e in t.elts for x in ast.walk(e)):
+                                srcs.append(None)
+                elif isinstance(a, (ast.AugAssign, ast.For, ast.NamedExpr)) and any(isinstance(x, ast.Name) and x.id == it.id for x in ast.walk(a.target)):
+                    srcs.append(None)
+            if len(srcs) == 1 and srcs[0] is not None:
+                v = self.prog.const_eval(srcs[0], self.cls.mod, self.cls)
+                if v is not NOCONST and isinstance(v, (list, tuple)) and 0 < len(v) <= 16 and not any(isinstance(n, (ast.Break, ast.Continue)) for n in ast.walk(st)) \
+                        and all(isinstance(x, (int, str, float, bool, type(None))) or
+                                (isinstance(x, tuple) and all(isinstance(y, (int, str, float, bool, type(None))) for y in x)) for x in v):
+                    vals = list(v)
+                    return vals, False
         if vals is None and isinstance(it, ast.Name) and getattr(self, "fnode", None) is not None and not enum and not st.orelse:
             # a local bound once to a small display of arbitrary expressions (e.g. pairs of limit and log text): unroll over the element
             # expressions, provided nothing they read is assigned inside the loop
@@ -592,7 +628,7 @@ class Enumerator:
                 if not (reads & written) and not (has_attr_reads and (attr_writes or has_calls)) \
                         and not any(isinstance(n, (ast.Break, ast.Continue)) for n in ast.walk(st)):
                     return ("exprs", list(asg[0].value.elts)), False
-        if vals is None or not (0 < len(vals) <= 8) or st.orelse:
+        if vals is None or not (0 < len(vals) <= 16) or st.orelse:
             return None
         if any(isinstance(n, (ast.Break,)) for n in ast.walk(st)):
             return None
